@@ -431,12 +431,14 @@ Lemma return_sound : forall s r s', step s (Return r) = Some s' ->
   end.
 Proof.
   intros s r s' H. unfold step in H. destruct (mn s) eqn:Em; try discriminate.
-  - destruct (all_done (ph s) (hung s)) eqn:Ea; cbn in H; [|discriminate]. split; [reflexivity|].
-    destruct r; try discriminate H.
-    + destruct (no_error _ _) eqn:En; [auto | discriminate].
-    + destruct (first_error _ _ _) eqn:En; [auto | discriminate].
-  - destruct (all_done (ph s) (hung s)) eqn:Ea; cbn in H; [|discriminate]. split; [reflexivity|].
-    destruct r; cbn in H; try discriminate; reflexivity.
+  - destruct (all_done (ph s) (hung s)) eqn:Ea; [|rewrite andb_false_l in H; discriminate].
+    rewrite andb_true_l in H. split; [reflexivity|].
+    destruct r; cbv beta iota in H.
+    + destruct (no_error (ph s) (root_tasks ++ hung s)) eqn:En; [auto | discriminate].
+    + destruct (first_error (ph s) (root_tasks ++ hung s) e) eqn:En; [auto | discriminate].
+    + discriminate.
+  - destruct (all_done (ph s) (hung s)) eqn:Ea; [|rewrite andb_false_l in H; discriminate].
+    split; [reflexivity|]. destruct r; cbn in H; try discriminate; reflexivity.
 Qed.
 
 Lemma err_eqb_eq : forall a b, err_eqb a b = true -> a = b.
@@ -459,37 +461,40 @@ Qed.
 Lemma done_cancel : forall t p, is_done p = true -> cancel_phase t p = p.
 Proof. intros t [] H; try discriminate; reflexivity. Qed.
 
+Ltac not_same Hd :=
+  apply upd_other; intros ->;
+  match goal with E : ph _ _ = _ |- _ => rewrite E in Hd; discriminate Hd end.
+
+Lemma dab_cancel_roots : forall s s' t, cancel_roots s = Some s' -> is_done (ph s t) = true -> ph s' t = ph s t.
+Proof.
+  intros s s' t E Hd. apply cancel_roots_spec in E. destruct E as (_&_&_&_&_&_&_&_&_&_&_&_&_&_&Hp).
+  destruct (Hp t) as [->|[->|(->&Hx&_)]]; auto using done_cancel. rewrite Hx in Hd; discriminate.
+Qed.
+
+Lemma dab_Finish : forall s t0 o s' t, step s (Finish t0 o) = Some s' -> is_done (ph s t) = true -> ph s' t = ph s t.
+Proof.
+  intros s t0 o s' t H Hd. unfold step in H.
+  destruct (negb _) eqn:Eok in H; [discriminate|]. apply negb_false_iff in Eok.
+  assert (Hne : t <> t0).
+  { intros ->. destruct (ph s t0); try discriminate Hd. discriminate Eok. }
+  assert (H1 : upd (ph s) t0 (PDone o) t = ph s t) by (now apply upd_other).
+  destruct t0; try (injection H as <-; exact H1).
+  destruct o; try (injection H as <-; exact H1).
+  destruct (ph s (TWatcher w)) eqn:Ew; try (injection H as <-; exact H1).
+  injection H as <-. cbn. rewrite upd_other; [exact H1|]. intros ->. rewrite Ew in Hd; discriminate.
+Qed.
+
 Lemma done_absorbing_step : forall s l s' t, step s l = Some s' -> is_done (ph s t) = true -> ph s' t = ph s t.
 Proof.
   intros s l s' t H Hd.
   assert (Hc : forall ts, cancel_in (ph s) ts t = ph s t).
   { intros ts. destruct (cancel_in_cases (ph s) ts t) as [->| ->]; auto using done_cancel. }
-  assert (Hu : forall x p, ph s x <> ph s t -> upd (ph s) x p t = ph s t).
-  { intros x p Hx. apply upd_other. intros ->. now apply Hx. }
-  destruct (ph s t) eqn:Ep; try discriminate.
-  destruct l; unfold step in H.
-  all: try (inv_step H; cbn; auto; fail).
-  - inv_step H; cbn. rewrite Ep; reflexivity.
-  - inv_step H; cbn; auto. apply cancel_roots_spec in E0. destruct E0 as (_&_&_&_&_&_&_&_&_&_&_&_&_&_&Hp).
-    destruct (Hp t) as [->|[->|(->&Hx&_)]]; auto. rewrite Ep; reflexivity. congruence.
-  - inv_step H; cbn. apply Hu. rewrite Ep; destruct (ph s t0); congruence.
-  - inv_step H; cbn; apply Hu; rewrite Ep; congruence.
-  - destruct (negb _) eqn:Eok in H; [discriminate|]. apply negb_false_iff in Eok.
-    assert (Hne : ph s t0 <> PDone o0) by (intros Ex; rewrite Ex in Eok; discriminate).
-    assert (H1 : upd (ph s) t0 (PDone o) t = PDone o0) by (rewrite Hu; [exact Ep | now rewrite Ep]).
-    destruct t0; try (injection H as <-; exact H1).
-    destruct o; try (injection H as <-; exact H1).
-    destruct (ph s (TWatcher w)) eqn:Ew; try (injection H as <-; exact H1).
-    injection H as <-. cbn. destruct (upd_cases (upd (ph s) (TWorker w n) (PDone (OErr e))) (TWatcher w)
-       (PEnding (OErr (EOf (TWatcher w)))) t) as [[-> _]|[_ ->]]; [congruence | exact H1].
-  - inv_step H; cbn. apply cancel_roots_spec in E1. destruct E1 as (_&_&_&_&_&_&_&_&_&_&_&_&_&_&Hp).
-    destruct (Hp t) as [->|[->|(->&Hx&_)]]; auto. rewrite Ep; reflexivity. congruence.
-  - inv_step H; unfold set_mn, set_hung, set_ph; cbn [ph]; auto.
-  - inv_step H; cbn; auto. apply Hu; rewrite Ep; congruence.
-  - inv_step H; cbn. apply Hu; rewrite Ep; congruence.
-  - inv_step H; cbn; auto; apply Hu; rewrite Ep; congruence.
-  - inv_step H; cbn; apply Hu; rewrite Ep; congruence.
-  - inv_step H; cbn; apply Hu; rewrite Ep; congruence.
+  destruct l; try (eapply dab_Finish; eauto; fail); unfold step in H; inv_step H;
+    unfold set_mn, set_hung, set_ph, set_act, add_grace; cbn [ph]; auto;
+    try first [ apply Hc | not_same Hd | (destruct (ph s t); try discriminate Hd; reflexivity)
+          | (eapply dab_cancel_roots; eauto) ].
+  apply upd_other; intros ->. unfold may_spawn in E.
+  destruct (ph s t0); try discriminate Hd. rewrite andb_false_r in E. discriminate E.
 Qed.
 
 Lemma done_absorbing : forall tr s s' t, run s tr = Some s' -> is_done (ph s t) = true -> ph s' t = ph s t.
@@ -499,3 +504,303 @@ Proof.
   - destruct (step s l) as [s1|] eqn:E; [|discriminate].
     pose proof (done_absorbing_step _ _ _ _ E Hd) as E1. rewrite <- E1. apply IH; auto. now rewrite E1.
 Qed.
+
+(* ------------------------------------------------------------------ 5. cleanup is last *)
+
+Lemma all_done_pres : forall s l s' ts, step s l = Some s' -> all_done (ph s) ts = true -> all_done (ph s') ts = true.
+Proof.
+  intros s l s' ts H Hd. unfold all_done in *. rewrite forallb_forall in *. intros t Hin.
+  specialize (Hd t Hin). now rewrite (done_absorbing_step _ _ _ _ H Hd).
+Qed.
+
+Definition in_cleanup (a : aphase) : Prop := a = ACleanup \/ a = ACleanupRun.
+Definition Inv_cl (s : state) : Prop :=
+  (act s = AStopCore None \/ in_cleanup (act s) -> all_done (ph s) other_roots = true) /\
+  (in_cleanup (act s) -> is_done (ph s TAuth) = true).
+
+Lemma act_after_cancel_late : forall a a', act_after_cancel a a' ->
+  a' = AStopCore None \/ in_cleanup a' -> a' = a.
+Proof.
+  intros a a' H H1. unfold act_after_cancel in H. unfold in_cleanup in H1.
+  destruct H as [->|[[-> _]|[[-> _]|[[-> _]|[-> _]]]]]; auto; destruct H1 as [H1|[H1|H1]]; discriminate.
+Qed.
+
+Lemma Inv_cl_step : forall s l s', Inv_cl s -> step s l = Some s' -> Inv_cl s'.
+Proof.
+  intros s l s' [Hi1 Hi2] H. pose proof H as H0.
+  assert (Hp : forall ts, all_done (ph s) ts = true -> all_done (ph s') ts = true) by (eauto using all_done_pres).
+  assert (Hpa : is_done (ph s TAuth) = true -> is_done (ph s' TAuth) = true).
+  { intros Hd. now rewrite (done_absorbing_step _ _ _ _ H Hd). }
+  unfold in_cleanup in *.
+  split; intros Ha.
+  - apply Hp.
+    destruct l; unfold step in H0; inv_step H0; use_cancel_spec; cbn in Ha;
+      try (apply Hi1; exact Ha);
+      try (destruct Ha as [Ha|[Ha|Ha]]; discriminate Ha);
+      try (match goal with Hc : act_after_cancel _ _ |- _ =>
+             pose proof (act_after_cancel_late _ _ Hc Ha) as Hk; rewrite Hk in Ha; apply Hi1; exact Ha end);
+      try assumption; try reflexivity;
+      try (apply Hi1; rewrite E; auto; fail);
+      try (apply Hi1; rewrite E0; auto; fail);
+      try (apply Hi1; auto; fail).
+  - apply Hpa.
+    destruct l; unfold step in H0; inv_step H0; use_cancel_spec; cbn in Ha;
+      try (apply Hi2; exact Ha);
+      try (destruct Ha as [Ha|Ha]; discriminate Ha);
+      try (match goal with Hc : act_after_cancel _ _ |- _ =>
+             pose proof (act_after_cancel_late _ _ Hc (or_intror Ha)) as Hk; rewrite Hk in Ha; apply Hi2; exact Ha end);
+      try (apply Hi2; rewrite E; auto; fail);
+      try (apply Hi2; auto; fail); try reflexivity;
+      try (match goal with E : ph s TAuth = PDone _ |- _ => rewrite E; reflexivity end).
+Qed.
+
+Lemma Inv_cl_reach : forall tr s, run init tr = Some s -> Inv_cl s.
+Proof.
+  intros tr s H. eapply (run_inv Inv_cl); eauto using Inv_cl_step.
+  unfold Inv_cl, in_cleanup; cbn. split; [intros [Ha|[Ha|Ha]] | intros [Ha|Ha]]; discriminate Ha.
+Qed.
+
+(* When the cleanup activity begins, every other root task and the core task are done — and they stay done:
+   none of them makes an API request or creates a task afterwards. *)
+Lemma cleanup_last : forall pre post s, run init (pre ++ CleanupBegin :: post) = Some s ->
+  exists s0, run init pre = Some s0 /\
+    all_done (ph s0) other_roots = true /\ is_done (ph s0 TAuth) = true /\
+    (forall t, In t (TAuth :: other_roots) -> ph s t = ph s0 t) /\
+    (forall t, In t (TAuth :: other_roots) -> ~ In (Api t) post /\ forall c, ~ In (Spawn c t) post).
+Proof.
+  intros pre post s H. apply run_split in H as (s0&s1&Hpre&Hst&Hpost). exists s0. split; [exact Hpre|].
+  destruct (Inv_cl_reach _ _ Hpre) as [H1 H2].
+  assert (Ha : act s0 = ACleanup) by (unfold step in Hst; destruct (act s0); try discriminate; reflexivity).
+  assert (Hr : all_done (ph s0) other_roots = true) by (apply H1; right; left; exact Ha).
+  assert (Hc : is_done (ph s0 TAuth) = true) by (apply H2; left; exact Ha).
+  assert (Hd : forall t, In t (TAuth :: other_roots) -> is_done (ph s0 t) = true).
+  { intros t [<-|Hin]; auto. unfold all_done in Hr. rewrite forallb_forall in Hr. now apply Hr. }
+  split; [exact Hr|]. split; [exact Hc|]. split.
+  - intros t Hin. specialize (Hd t Hin).
+    assert (E1 : ph s1 t = ph s0 t) by (eapply done_absorbing_step; eauto).
+    rewrite <- E1. eapply done_absorbing; eauto. now rewrite E1.
+  - intros t Hin. specialize (Hd t Hin).
+    assert (E1 : ph s1 t = ph s0 t) by (eapply done_absorbing_step; eauto).
+    assert (Hd1 : is_done (ph s1 t) = true) by now rewrite E1.
+    split.
+    + intros Hapi. apply in_split in Hapi as (p1&p2&->). apply run_split in Hpost as (a&b&Hp1&Hs&_).
+      pose proof (done_absorbing _ _ _ _ Hp1 Hd1) as E2. unfold step in Hs.
+      destruct (api_capable t); [|discriminate]. cbn in Hs. rewrite E2 in Hs.
+      destruct (ph s1 t); try discriminate Hd1. discriminate Hs.
+    + intros c Hsp. apply in_split in Hsp as (p1&p2&->). apply run_split in Hpost as (a&b&Hp1&Hs&_).
+      pose proof (done_absorbing _ _ _ _ Hp1 Hd1) as E2. unfold step in Hs.
+      destruct (may_spawn a c t) eqn:Em; [|discriminate]. unfold may_spawn in Em.
+      apply andb_true_iff in Em as [Em _]. apply andb_true_iff in Em as [Em _]. apply andb_true_iff in Em as [_ Em].
+      rewrite E2 in Em. destruct (ph s1 t); try discriminate Hd1. discriminate Em.
+Qed.
+
+(* run_tasks returns only after every root task is done (unless it is cancelled while already stopping) *)
+Definition Inv_ret (s : state) : Prop :=
+  match mn s with
+  | MWaitHung | MStopHung | MCStopHung => all_done (ph s) root_tasks = true
+  | MReturned r => r <> RCancelled -> all_done (ph s) root_tasks = true
+  | _ => True
+  end.
+
+Lemma Inv_ret_step : forall s l s', Inv_ret s -> step s l = Some s' -> Inv_ret s'.
+Proof.
+  intros s l s' Hi H. pose proof H as H0.
+  assert (Hp : all_done (ph s) root_tasks = true -> all_done (ph s') root_tasks = true) by (eauto using all_done_pres).
+  unfold Inv_ret in *.
+  destruct l; unfold step in H0; inv_step H0; use_cancel_spec; cbn in *;
+    repeat match goal with Hm : mn ?x = _ |- _ => rewrite Hm in * end;
+    try exact I; auto;
+    try (intros Hc; exfalso; apply Hc; reflexivity);
+    try (destruct (mn s); auto; fail).
+Qed.
+
+Lemma Inv_ret_reach : forall tr s, run init tr = Some s -> Inv_ret s.
+Proof. intros tr s H. eapply (run_inv Inv_ret); eauto using Inv_ret_step. exact I. Qed.
+
+Lemma returns_after_roots : forall tr s r, run init tr = Some s -> mn s = MReturned r -> r <> RCancelled ->
+  forall x, is_done (ph s (TRoot x)) = true.
+Proof.
+  intros tr s r H Hm Hr x. pose proof (Inv_ret_reach _ _ H) as Hi. unfold Inv_ret in Hi. rewrite Hm in Hi.
+  specialize (Hi Hr). unfold all_done in Hi. rewrite forallb_forall in Hi. apply Hi.
+  unfold root_tasks. apply in_map. destruct x; cbn; tauto.
+Qed.
+
+(* ------------------------------------------------------------------ 6. a finished root task makes run_tasks stop the others *)
+
+Lemma mainstop_enabled : forall s x, mn s = MWait -> is_done (ph s (TRoot x)) = true -> act s <> AFlag ->
+  exists s', step s MainStop = Some s' /\ mn s' = MStopRoots.
+Proof.
+  intros s x Hm Hd Ha. unfold step. rewrite Hm.
+  assert (He : existsb (fun t => is_done (ph s t)) root_tasks = true).
+  { apply existsb_exists. exists (TRoot x). split; [|exact Hd]. unfold root_tasks. apply in_map. destruct x; cbn; tauto. }
+  rewrite He. unfold cancel_roots, cancel_act.
+  destruct (ph (set_ph s (cancel_in (ph s) other_roots)) (TRoot RAct)); try (eexists; split; reflexivity).
+  change (act (set_ph s (cancel_in (ph s) other_roots))) with (act s).
+  destruct (act s); try contradiction; eexists; split; reflexivity.
+Qed.
+
+(* ------------------------------------------------------------------ 7. each grace period is spent at most once *)
+
+Lemma grace_eqb_eq : forall a b, grace_eqb a b = true <-> a = b.
+Proof.
+  intros a b; split.
+  - destruct a, b; cbn; intros H; try discriminate; try reflexivity; apply Nat.eqb_eq in H; now subst.
+  - intros ->; destruct b; cbn; rewrite ?Nat.eqb_refl; reflexivity.
+Qed.
+
+Lemma mem_grace_cons : forall g g' l, mem_grace g (g' :: l) = grace_eqb g g' || mem_grace g l.
+Proof. reflexivity. Qed.
+
+Fixpoint count_grace (g : grace) (tr : list label) : nat :=
+  match tr with
+  | [] => 0
+  | GraceTimeout g' :: tr' => (if grace_eqb g g' then 1 else 0) + count_grace g tr'
+  | _ :: tr' => count_grace g tr'
+  end.
+
+Definition spent (g : grace) (s : state) : nat := if mem_grace g (graces s) then 1 else 0.
+
+Lemma graces_step : forall s l s' g, step s l = Some s' ->
+  spent g s' = spent g s + count_grace g [l] /\ spent g s' <= 1.
+Proof.
+  intros s l s' g H. unfold spent.
+  destruct l; try (unfold step in H; inv_step H; use_cancel_spec; unfold mem_grace in *; cbn in *;
+                   repeat match goal with Hg : graces _ = graces _ |- _ => rewrite Hg end;
+                   split; [lia | destruct (existsb (grace_eqb g) (graces s)); lia]; fail).
+  match goal with H : step _ (GraceTimeout ?x) = _ |- _ => rename x into gg end.
+  unfold step in H. destruct (mem_grace gg (graces s)) eqn:Em; [discriminate|].
+  assert (Hgr : graces s' = gg :: graces s) by (inv_step H; reflexivity).
+  rewrite Hgr, mem_grace_cons. cbn [count_grace]. destruct (grace_eqb g gg) eqn:Eg.
+  - apply grace_eqb_eq in Eg; subst gg. rewrite Em. cbn. lia.
+  - cbn. destruct (mem_grace g (graces s)); lia.
+Qed.
+
+Lemma count_grace_app : forall g a b, count_grace g (a ++ b) = count_grace g a + count_grace g b.
+Proof. induction a as [|l a IH]; intros b; cbn; [reflexivity|]. destruct l; rewrite ?IH; lia. Qed.
+
+Lemma graces_run : forall tr s s' g, run s tr = Some s' -> spent g s' = spent g s + count_grace g tr.
+Proof.
+  induction tr as [|l tr IH]; intros s s' g H; cbn in H.
+  - injection H as <-. cbn. lia.
+  - destruct (step s l) as [s1|] eqn:E; [|discriminate].
+    rewrite (IH _ _ g H). destruct (graces_step _ _ _ g E) as [E1 _]. rewrite E1.
+    change (l :: tr) with ([l] ++ tr). rewrite count_grace_app. lia.
+Qed.
+
+Lemma grace_once : forall tr s g, run init tr = Some s -> count_grace g tr <= 1.
+Proof.
+  intros tr s g H. pose proof (graces_run _ _ _ g H) as E. unfold spent in E at 2. cbn in E.
+  assert (spent g s <= 1) by (unfold spent; destruct (mem_grace g (graces s)); lia). lia.
+Qed.
+
+(* ------------------------------------------------------------------ 8. witnesses *)
+
+Definition all_roots_running (s : state) : bool :=
+  forallb (fun t => match ph s t with PRun => true | _ => false end) root_tasks.
+
+(* F10: an unknown in-stream ERROR ends the watcher *)
+Definition tr_f10_watcher : list label :=
+  [StartupOk; Flag; Spawn (TWatcher 0) (TRoot ROrch); Api (TWatcher 0);
+   Fail (TWatcher 0); Finish (TWatcher 0) (OErr (EOf (TWatcher 0)))].
+(* F10: a worker fails unrecoverably, the watcher raises RuntimeError *)
+Definition tr_f10_worker : list label :=
+  [StartupOk; Flag; Spawn (TWatcher 0) (TRoot ROrch); Spawn (TWorker 0 0) (TWatcher 0);
+   Fail (TWorker 0 0); Finish (TWorker 0 0) (OErr (EOf (TWorker 0 0)));
+   Finish (TWatcher 0) (OErr (EOf (TWatcher 0)))].
+
+Definition lingers (tr : list label) : bool :=
+  match run init tr with
+  | Some s => quiescent s && negb (returned s) && all_roots_running s && negb (stopflag s)
+  | None => false
+  end.
+
+Lemma f10_watcher_lingers : lingers tr_f10_watcher = true.
+Proof. vm_compute. reflexivity. Qed.
+Lemma f10_worker_lingers : lingers tr_f10_worker = true.
+Proof. vm_compute. reflexivity. Qed.
+
+Lemma any_failure_stops_all_refuted :
+  exists tr t s, run init tr = Some s /\ In (Fail t) tr /\
+    quiescent s = true /\ returned s = false /\ all_roots_running s = true /\ stopflag s = false.
+Proof.
+  exists tr_f10_watcher, (TWatcher 0).
+  destruct (run init tr_f10_watcher) as [s|] eqn:E; [|vm_compute in E; discriminate].
+  exists s. split; [reflexivity|]. split; [cbn; tauto|].
+  pose proof f10_watcher_lingers as H. unfold lingers in H. rewrite E in H.
+  apply andb_true_iff in H as [H H4]. apply andb_true_iff in H as [H H3]. apply andb_true_iff in H as [H1 H2].
+  apply negb_true_iff in H2, H4. auto.
+Qed.
+
+(* F2001: a daemon spawned after the daemon killer's only sweep is running when the cleanup begins *)
+Definition finish_simple_roots : list label :=
+  [Finish (TRoot RStopper) OOk; Finish (TRoot RUltimate) OOk; Finish (TRoot RPoster) OCancelled;
+   Finish (TRoot RAdmChain) OCancelled; Finish (TRoot RAdmVal) OCancelled; Finish (TRoot RAdmMut) OCancelled;
+   Finish (TRoot RAdmSrv) OCancelled; Finish (TRoot RResObs) OCancelled; Finish (TRoot RNsObs) OCancelled].
+Definition tr_f2001 : list label :=
+  [StartupOk; Flag; Spawn (TWatcher 0) (TRoot ROrch); Spawn (TWorker 0 0) (TWatcher 0); Cancel; Sweep;
+   Spawn (TDaemon 0) (TWorker 0 0); Finish (TRoot RKiller) OCancelled; OrchStop]
+  ++ finish_simple_roots ++
+  [Finish (TWorker 0 0) OOk; Finish (TWatcher 0) OCancelled; Finish (TRoot ROrch) OCancelled;
+   ActRootsGone; Finish TAuth OCancelled; CoreStopped].
+
+Definition daemon_alive_unasked_at_cleanup (tr : list label) (d : nat) : bool :=
+  match run init (tr ++ [CleanupBegin]) with
+  | Some s => match ph s (TDaemon d) with PRun => negb (mem_nat d (asked s)) && negb (mem_nat d (abandoned s)) | _ => false end
+  | None => false
+  end.
+
+Lemma daemons_stopped_before_cleanup_refuted : daemon_alive_unasked_at_cleanup tr_f2001 0 = true.
+Proof. vm_compute. reflexivity. Qed.
+
+(* partial: what the killer's completion does guarantee *)
+Definition Inv_killer (s : state) : Prop :=
+  forall o, ph s (TRoot RKiller) = PDone o -> (forall e, o <> OErr e) -> swept s = true ->
+  forall d, In d (asked s) -> is_done (ph s (TDaemon d)) = true \/ In d (abandoned s).
+
+(* two stop triggers: the stop flag, then a cancellation while run_tasks is already stopping the roots *)
+Definition tr_double : list label :=
+  [StartupOk; Flag; StopFlag; Finish TWaiter OOk; Finish (TRoot RStopper) OOk; MainStop; Cancel].
+Lemma double_trigger_returns_early :
+  match run init tr_double with
+  | Some s => returned s && negb (all_done (ph s) root_tasks)
+  | None => false
+  end = true.
+Proof. vm_compute. reflexivity. Qed.
+
+(* non-vacuity: complete runs *)
+Definition tr_happy : list label :=
+  [StartupOk; Flag; Api (TRoot RResObs); Spawn (TWatcher 0) (TRoot ROrch); Api (TWatcher 0);
+   Spawn (TWorker 0 0) (TWatcher 0); Spawn (TDaemon 0) (TWorker 0 0); Api (TWorker 0 0);
+   StopFlag; Finish TWaiter OOk; Finish (TRoot RStopper) OOk; MainStop; Sweep; OrchStop;
+   GraceTimeout (GBackoff 0); Finish (TDaemon 0) OCancelled; Finish (TRoot RKiller) OCancelled;
+   Finish (TRoot RUltimate) OOk; Finish (TRoot RPoster) OCancelled;
+   Finish (TRoot RAdmChain) OCancelled; Finish (TRoot RAdmVal) OCancelled; Finish (TRoot RAdmMut) OCancelled;
+   Finish (TRoot RAdmSrv) OCancelled; Finish (TRoot RResObs) OCancelled; Finish (TRoot RNsObs) OCancelled;
+   GraceTimeout (GExit 0); Finish (TWorker 0 0) OCancelled; Finish (TWatcher 0) OCancelled;
+   Finish (TRoot ROrch) OCancelled; ActRootsGone; Finish TAuth OCancelled; CoreStopped; CleanupBegin; CleanupOk;
+   RootsStopped; HungDone; Return ROk].
+Lemma happy_accepted : returned_with tr_happy ROk = true.
+Proof. vm_compute. reflexivity. Qed.
+
+Definition tr_failed_startup : list label :=
+  [StartupFail; Finish TAuth OCancelled; CoreStopped; MainStop;
+   Finish (TRoot RStopper) OOk; Finish (TRoot RUltimate) OOk; Finish (TRoot RKiller) OCancelled;
+   Finish (TRoot RPoster) OCancelled; Finish (TRoot RAdmChain) OCancelled; Finish (TRoot RAdmVal) OCancelled;
+   Finish (TRoot RAdmMut) OCancelled; Finish (TRoot RAdmSrv) OCancelled; Finish (TRoot RResObs) OCancelled;
+   Finish (TRoot RNsObs) OCancelled; Finish (TRoot ROrch) OCancelled; RootsStopped; GraceTimeout GHung;
+   Return (RErr EStartup)].
+Lemma failed_startup_accepted : returned_with tr_failed_startup (RErr EStartup) = true.
+Proof. vm_compute. reflexivity. Qed.
+
+(* a root task fails: the operator stops and re-raises *)
+Definition tr_root_failure : list label :=
+  [StartupOk; Flag; Api (TRoot RResObs); Fail (TRoot RResObs); Finish (TRoot RResObs) (OErr (EOf (TRoot RResObs)));
+   MainStop; Sweep; OrchStop;
+   Finish (TRoot RStopper) OOk; Finish (TRoot RUltimate) OOk; Finish (TRoot RKiller) OCancelled;
+   Finish (TRoot RPoster) OCancelled; Finish (TRoot RAdmChain) OCancelled; Finish (TRoot RAdmVal) OCancelled;
+   Finish (TRoot RAdmMut) OCancelled; Finish (TRoot RAdmSrv) OCancelled;
+   Finish (TRoot RNsObs) OCancelled; Finish (TRoot ROrch) OCancelled; ActRootsGone; Finish TAuth OCancelled;
+   CoreStopped; CleanupBegin; CleanupOk; RootsStopped; GraceTimeout GHung; Finish TWaiter OCancelled;
+   Return (RErr (EOf (TRoot RResObs)))].
+Lemma root_failure_accepted : returned_with tr_root_failure (RErr (EOf (TRoot RResObs))) = true.
+Proof. vm_compute. reflexivity. Qed.
